@@ -8,6 +8,9 @@ import (
 	"strings"
 	"sync"
 	"time"
+
+	"github.com/jig/lisp/lib/call"
+	. "github.com/jig/lisp/types"
 )
 
 func init() {
@@ -132,6 +135,42 @@ func init() {
 		}
 		if o := evalW(w, "(deref c)"); o != fmt.Sprintf("ok I%d", k*per) {
 			return o + fmt.Sprintf("\t!%d contended increments: updates lost", k*per)
+		}
+		return "ok"
+	})
+}
+
+func init() {
+	// C10 ("none of this involves a data race"): a running future is cancelled while its body is inside a host function
+	// that ignores the context and simply returns a little later.  Nothing orders the cancel and the body's completion
+	// (no gate, no channel between them): whatever both sides touch must be guarded.  Meaningful under -race.
+	addWitness("cancel-while-body-naps", "f", func(iters int) string {
+		w, err := newConcWorld()
+		if err != nil {
+			return "setup-error"
+		}
+		call.CallOverrideFN(w.env, "nap!", func(ms int) (MalType, error) {
+			time.Sleep(time.Duration(ms) * time.Millisecond)
+			return ms, nil
+		})
+		n := 25
+		if iters > n {
+			n = min(iters, 200)
+		}
+		for i := 0; i < n; i++ {
+			if o := evalW(w, "(def f (future (nap! 3)))"); !strings.HasPrefix(o, "ok") {
+				return "setup " + o
+			}
+			time.Sleep(time.Duration(500+i*97%2500) * time.Microsecond)
+			c := evalW(w, "(future-cancel f)")
+			d := evalW(w, "(try (deref f) (catch e :failed))")
+			s := evalW(w, "[(future-done? f) (future-cancelled? f)]")
+			if c == "BLOCKED" || d == "BLOCKED" || s == "BLOCKED" {
+				return "BLOCKED\t!an operation on a future cancelled while its body napped never returned"
+			}
+			if s != "ok ( V T "+map[bool]string{true: "T", false: "F"}[c == "ok T"]+" )" {
+				return fmt.Sprintf("cancel=%s deref=%s status=%s\t!after a deref returned, future-done? must be true and future-cancelled? must be what future-cancel answered", c, d, s)
+			}
 		}
 		return "ok"
 	})
